@@ -13,9 +13,9 @@ RULE = ("trees {three classes incl. a 131073-byte class that reaches the suffix 
         "FIEMAP is issued; a small tree under the 'unknown' pin; a tree spread over three input paths, given as arguments and through --stdin, where every call on an input path after the up-front existence check is a fault point; the small tree also under --transform (pipe and $IN)}, `group -t 1` (two of the trees also with --unique, "
         "--rf-under 3 and --rf-over 0); the read-side call history (stat, lstat, "
         "open, every read, opendir, every readdir, readlink, realpath, FIEMAP ioctl) is recorded twice (must be "
-        "identical); then EVERY event k fails with EACCES, EIO and ENOENT (thorough: also every pair k1<k2 for the small "
+        "identical); then EVERY event k fails with EACCES, EIO and ENOENT, every open also together with the call that follows it (the O_NOATIME attempt and its fall-back: the entry vanished) (thorough: also every pair k1<k2 for the small "
         "tree). Oracle: exit 0 and a parsable report that equals the reference result (partition + replication filter) of the "
-        "tree without some subset S of the entries affected by the failing call (the path and its other links; the sub-tree for a directory call), S empty (and then every group with the length and hash of the fault-free run) "
+        "tree without some subset S of the entries affected by the failing call (the path and - unless the errno is ENOENT, which concerns one directory entry - the other links of the file; the sub-tree for a directory call), S empty (and then every group with the length and hash of the fault-free run) "
         "for FIEMAP faults and probes of absent ignore files; a warning unless the errno is ENOENT; every reported group "
         "byte-identical. distinct_nontrivial = distinct (tree, k, errno) reached.")
 ASSUMPTIONS = ["input validation is not part of the property and is skipped: the stat/realpath of the base directory, the "
@@ -128,7 +128,7 @@ def evaluate(case):
             raise C.MachineryError("reference model disagrees with the fault-free run for %s %s: %s vs %s" % (
                 case["tree"], flt, sorted(map(sorted, expected_for(set()))), sorted(map(sorted, base_groups))))
 
-        def affected_by(ev):
+        def affected_by(ev, errno_name=None):
             p = ev.path
             base_name = os.path.basename(p)
             if base_name in (".gitignore", ".fdignore") and not os.path.lexists(p):
@@ -144,6 +144,9 @@ def evaluate(case):
                 ids.add(info[p][0])
             elif rp in info:
                 ids.add(info[rp][0])
+            if errno_name == "ENOENT" and ev.call != "read":
+                # "the entry vanished" is about this directory entry: other links of the file are still there
+                return set([p, rp]), False
             aff = set(q for q in info if info[q][0] in ids)
             aff.add(p)
             return aff, False
@@ -174,6 +177,10 @@ def evaluate(case):
                 continue
             for e in ERRNOS:
                 plan.append((k, e, None))
+        # a vanished entry: fclones first opens with O_NOATIME and falls back to a plain open, so both must fail
+        for k, ev in enumerate(events):
+            if ev.call == "open" and not is_validation(k):
+                plan.append((k, "ENOENT", k + 1))
         if case["pairs"]:
             plan = [(k1, "EIO", k2) for k1 in range(len(events)) for k2 in range(k1 + 1, len(events))
                     if not is_validation(k1) and not is_validation(k2)]
@@ -182,14 +189,14 @@ def evaluate(case):
         for (k, e, k2) in plan:
             evals += 1
             res = S.run_with_shim(sc, args, [sc.tree], "r", mode="fail", at=k, errno=S.ERRNO[e], at2=k2,
-                                  errno2=S.ERRNO["EIO"] if k2 is not None else None, env_extra=env, stdin=stdin)
+                                  errno2=S.ERRNO[e if e == "ENOENT" else "EIO"] if k2 is not None else None, env_extra=env, stdin=stdin)
             d = S.same_history(events, res["events"], upto=min(k, len(res["events"])))
             if d:
                 raise C.MachineryError("prefix diverged before event %d (%s): %s" % (k, case["tree"], d))
             ev = events[k]
             feat = {"call": ev.call, "errno": e, "transform": bool(trargs), "on_input_path": ev.path in roots_abs, "stage": "walk" if ev.call in ("opendir", "readdir", "lstat", "readlink", "realpath") else "hash_or_stat",
                     "second_fault": k2 is not None}
-            ctx = "%s event %d %r errno %s%s" % (case["tree"], k, ev, e, " + EIO at event %d of the faulted run" % k2 if k2 is not None else "")
+            ctx = "%s event %d %r errno %s%s" % (case["tree"], k, ev, e, "" if k2 is None else (" + %s at event %d of the faulted run" % ("ENOENT" if e == "ENOENT" else "EIO", k2)))
             rc_case = dict(case, only=[k, e, k2])
             reached.append([case["tree"], " ".join(case.get("filter", []) + trargs), via_stdin, k, e, k2])
             if res["timeout"]:
@@ -210,13 +217,13 @@ def evaluate(case):
                 datas = set(info[p][1] for p in g if p in info)
                 if len(datas) > 1:
                     viol.append(dict(feat, kind="non_identical_group", detail="%s: group %s" % (ctx, sorted(g)), replay_case=rc_case))
-            aff, must_be_same = affected_by(ev)
+            aff, must_be_same = affected_by(ev, e)
             if k2 is not None:
                 # after the first fault the history may differ from the recording: take the call that was
                 # really hit by the second fault from the log of this run
                 hit = [x for x in res["events"] if x.k == k2]
                 if hit:
-                    a2, same2 = affected_by(hit[0])
+                    a2, same2 = affected_by(hit[0], e if e == "ENOENT" else "EIO")
                     aff = aff | a2
                     must_be_same = must_be_same and same2
             aff_scanned = sorted(a for a in aff if a in ref_all["files"])
